@@ -610,6 +610,173 @@ def _k_varkw(family, case, disc):
     return disc.kind == "body-ran-on-rejected-input" and bool(vk.get("ann"))
 
 
+# --------------------------------------------------------------------------- polars
+
+
+@st.composite
+def strat_polars(draw):
+    n = draw(st.integers(0, 4))
+    base = [draw(st.sampled_from([1, 2, 3, 5])) for _ in range(n)]
+    cls = draw(st.sampled_from(["valid", "valid", "bad", "strs", "strs_bad"]))
+    if n and cls in ("bad", "strs_bad"):
+        base[draw(st.integers(0, n - 1))] = draw(st.sampled_from([-1, 0]))
+    if cls.startswith("strs"):
+        base = [str(c) for c in base]
+    deco = draw(st.sampled_from(["check_input", "check_input", "check_output", "check_io", "check_types", "check_types"]))
+    return {
+        "deco": deco, "cells": base, "container": draw(st.sampled_from(["df", "df", "lf"])),
+        "schema": draw(st.sampled_from(["gt0", "coerce"])) if deco != "check_types" else draw(st.sampled_from(["PM", "PMc"])),
+        "getter": draw(st.sampled_from(["none", "int", "str"])), "df_pos": draw(st.integers(0, 1)),
+        "pass_kw": draw(st.booleans()), "method": draw(st.booleans()), "lazy": draw(st.booleans()),
+        "body": draw(st.sampled_from(["same", "same", "fresh_valid", "fresh_bad", "tuple", "raise"])),
+        "ann_ret": draw(st.booleans()),
+    }
+
+
+def eval_polars(case):
+    import pandera as pa
+
+    from .. import fp
+    from . import _c17_polars as Q
+
+    ev = Eval()
+    deco, schema = case["deco"], Q.schema_of(case["schema"])
+    df_pos, method = case["df_pos"], case["method"]
+    getter = case["getter"]
+    if deco in ("check_input", "check_io"):
+        if getter == "none" and df_pos != 0:
+            getter = "str"  # the default designation is the first argument
+        if getter == "int" and case["pass_kw"]:
+            getter = "str"  # an int getter indexes positional arguments
+    ev.labels += ["pl:deco=" + deco, "pl:container=" + case["container"], "pl:body=" + case["body"],
+                  "pl:getter=" + getter, "pl:method" if method else "pl:function"]
+    log = []
+    opts = {"lazy": True} if case["lazy"] else {}
+    designated_out = deco in ("check_output", "check_io") or (deco == "check_types" and case["ann_ret"])
+
+    def make_body():
+        def body(df, x):
+            log.append({"df": Q.snap(df), "x": x})
+            b = case["body"]
+            if b == "raise":
+                raise Q.Boom("boom")
+            if b == "fresh_valid":
+                return Q.frame([1, 2], case["container"])
+            if b == "fresh_bad":
+                return Q.frame([1, -2], case["container"])
+            if b == "tuple" and deco in ("check_output", "check_io"):
+                return ("foo", df)
+            return df
+        return body
+
+    body = make_body()
+    params = ["x", "df"] if df_pos == 1 else ["df", "x"]
+    ann = {}
+    if deco == "check_types":
+        T = (Q.PlLazyFrame if case["container"] == "lf" else Q.PlDataFrame)[Q.MODELS[case["schema"]]]
+        ann["df"] = T
+        if case["ann_ret"]:
+            ann["return"] = T
+    ns = {"body": body}
+    src = f"def fn({'self, ' if method else ''}{params[0]}, {params[1]}=7):\n    return body(df, x)\n"
+    exec(src, ns)
+    raw = ns["fn"]
+    raw.__annotations__ = dict(ann)
+    out_getter = 1 if case["body"] == "tuple" and deco in ("check_output", "check_io") else None
+    try:
+        if deco == "check_input":
+            g = {"none": None, "int": df_pos, "str": "df"}[getter]
+            wrapped = pa.check_input(schema, g, **opts)(raw)
+        elif deco == "check_output":
+            wrapped = pa.check_output(schema, out_getter, **opts)(raw)
+        elif deco == "check_io":
+            wrapped = pa.check_io(out=(out_getter, schema) if out_getter is not None else schema, **{"df": schema}, **opts)(raw)
+        else:
+            wrapped = pa.check_types(raw, **opts) if opts else pa.check_types(raw)
+    except Exception as e:  # noqa: BLE001
+        ev.add("pl:decorating-raised:" + type(e).__name__, {"msg": str(e)[:200]})
+        return ev
+    arg = Q.frame(case["cells"], case["container"])
+    holder = type("K", (), {"fn": wrapped})() if method else None
+    callee = holder.fn if method else wrapped
+    pos, kw = [], {}
+    if case["pass_kw"]:
+        kw = {"df": arg, "x": 3}
+    else:
+        pos = [3, arg] if df_pos == 1 else [arg, 3]
+
+    # ---- reference
+    exp = {"ran": False, "raised": None, "result": None, "saw": None}
+    cur = arg
+    fail = None
+    if deco in ("check_input", "check_io", "check_types"):
+        o = fp.outcome(lambda: schema.validate(cur, **opts))
+        if o["kind"] == "ok":
+            cur = o["value"]
+        elif o["kind"] in ("SchemaError", "SchemaErrors"):
+            fail = o["kind"]
+        else:
+            ev.skipped = "oracle-validate-" + o["kind"]
+            return ev
+    if fail:
+        exp["raised"] = fail
+    else:
+        exp["ran"] = True
+        exp["saw"] = Q.snap(cur)
+        b = case["body"]
+        if b == "raise":
+            exp["raised"] = "Boom"
+        else:
+            out = Q.frame([1, 2], case["container"]) if b == "fresh_valid" else Q.frame([1, -2], case["container"]) \
+                if b == "fresh_bad" else cur
+            tup = b == "tuple" and deco in ("check_output", "check_io")
+            if designated_out:
+                o = fp.outcome(lambda: schema.validate(out, **opts))
+                if o["kind"] == "ok":
+                    out = o["value"]
+                elif o["kind"] in ("SchemaError", "SchemaErrors"):
+                    exp["raised"] = o["kind"]
+                else:
+                    ev.skipped = "oracle-validate-" + o["kind"]
+                    return ev
+            if exp["raised"] is None:
+                exp["result"] = Q.snap(("foo", out) if tup else out)
+    ev.labels.append("pl:expect=" + ("rejected-at-input" if fail else exp["raised"] or "returns"))
+    ev.nontrivial = True
+
+    # ---- observed
+    before = Q.snap(arg)
+    try:
+        res = callee(*pos, **kw)
+        got = {"raised": None, "result": Q.snap(res)}
+    except Q.Boom:
+        got = {"raised": "Boom", "result": None}
+    except pa.errors.SchemaErrors:
+        got = {"raised": "SchemaErrors", "result": None}
+    except pa.errors.SchemaError:
+        got = {"raised": "SchemaError", "result": None}
+    except Exception as e:  # noqa: BLE001
+        got = {"raised": "other:" + type(e).__name__, "result": None, "msg": str(e)[:200]}
+    ran = bool(log)
+    detail = {"case": {k: case[k] for k in ("deco", "getter", "df_pos", "pass_kw", "method", "lazy", "body", "container", "schema")}}
+    if ran != exp["ran"]:
+        ev.add("pl:body-ran-on-rejected-input" if ran else "pl:body-not-run-on-valid-input", dict(detail, got=got["raised"]))
+        return ev
+    if got["raised"] != exp["raised"]:
+        ev.add(f"pl:raises-differ:{exp['raised']}->{got['raised']}", dict(detail, msg=got.get("msg")))
+        return ev
+    if ran:
+        if log[0]["df"] != exp["saw"]:
+            ev.add("pl:body-did-not-see-parsed-frame", dict(detail, saw=log[0]["df"], expected=exp["saw"]))
+        if log[0]["x"] != 3:
+            ev.add("pl:other-argument-changed", dict(detail, x=log[0]["x"]))
+    if exp["raised"] is None and got["result"] != exp["result"]:
+        ev.add("pl:result-differs", dict(detail, got=got["result"], expected=exp["result"]))
+    if Q.snap(arg) != before:
+        ev.add("pl:caller-frame-modified", detail)
+    return ev
+
+
 # ------------------------------------------------------------------------ selftest
 
 
@@ -652,6 +819,9 @@ FAMILIES = [
     Family("outputs", evaluate, strategy=strat_outputs, n_quick=800, n_thorough=3000, shards_quick=3, shards_thorough=8,
            required_labels=["out-getter=none", "out-getter=int", "out-getter=str", "out-getter=callable", "async",
                             "expect=rejected-at-output", "options-decisive"]),
+    Family("polars", eval_polars, strategy=strat_polars, n_quick=500, n_thorough=3000, shards_quick=3, shards_thorough=8,
+           required_labels=["pl:deco=check_input", "pl:deco=check_output", "pl:deco=check_io", "pl:deco=check_types",
+                            "pl:expect=rejected-at-input", "pl:expect=returns", "pl:container=lf"]),
     Family("types", evaluate, strategy=strat_types, n_quick=960, n_thorough=4000, shards_quick=5, shards_thorough=16,
            required_labels=["ann=M", "ann=UnionMM2", "ann=OptM", "varargs-extras", "sig:varkw", "kind=method",
                             "expect=rejected-at-input", "expect=rejected-at-output", "options-decisive"]),
